@@ -344,14 +344,14 @@ def _case_worker(task):
     rng = random.Random(f"{seed}:{idx}")
     with warnings.catch_warnings():
         warnings.simplefilter("ignore")
-        feat = {"custom": True}
+        feat = {"custom": True, "generic": True}
         if mode == "naming":  # no version adaptation: every name is predictable
-            feat = {"mixed": False, "rmax": False, "custom": True}
+            feat = {"mixed": False, "rmax": False, "custom": True, "generic": True}
         g = L.Gen(rng, feat)
         spec = g.gen_spec()
         st, m = L.build_spec(spec)
         if st == "ok" and rng.random() < 0.7:
-            spec = L.rename_adversarial(spec, rng, L.harvest_names(m))
+            spec = L.rename_adversarial(spec, rng, L.harvest_names(m), L.harvest_names(m, nested_values_only=True))
             st, m = L.build_spec(spec)
         out = {"spec": spec, "status": st, "stats": L.spec_stats(spec)}
         if st == "err":
@@ -387,6 +387,9 @@ def classify(bad):
             if k == "walker":
                 import re
 
+                if re.fullmatch(r"dup-value:.+___v_\d+", d):
+                    # a user name equal to a value the version converter introduces (qualified by the node name)
+                    return "dup-value:user-name-equals-converter-name"
                 if re.fullmatch(r"dup-value:_v_\d+", d):
                     # a fresh name of onnx.version_converter kept by per-node adaptation (known finding)
                     return "dup-value:version-converter-fresh-name"
@@ -434,6 +437,17 @@ def observe_final_check(specs):
 
 
 HAND_SPECS = [
+    # former finding (fixed by 1c7785c): a model output named like a value the version converter introduces
+    {"args": ["b", "f"], "inputs": [["c", 0], ["x", 1]],
+     "stmts": [["if", 0, {"stmts": [["op", "rmax", 17, [1]], ["op", "identity", 19, [2]]], "outs": [3]},
+                {"stmts": [], "outs": [1]}, 17]],
+     "outputs": [["If_0_then_branch__ReduceMax_0___v_4", 2]], "drop": False, "funcs": [], "models": [],
+     "customs": [], "generics": []},
+    # ... and the same name given to an input (named before the adaptation happens)
+    {"args": ["b", "f"], "inputs": [["c", 0], ["If_0_then_branch__ReduceMax_0___v_4", 1]],
+     "stmts": [["if", 0, {"stmts": [["op", "rmax", 17, [1]], ["op", "identity", 19, [2]]], "outs": [3]},
+                {"stmts": [], "outs": [1]}, 17]],
+     "outputs": [["y", 2]], "drop": False, "funcs": [], "models": [], "customs": [], "generics": []},
     # former finding (fixed by 6e356ff): the version converter's fresh name _v_4 in a Loop body and again in
     # the main graph
     {"args": ["f"], "inputs": [["x", 0]],
@@ -548,6 +562,9 @@ def run(ck: core.Check):
         for k in ("if", "loop", "inline", "call"):
             dist[k] += int(s[k] > 0)
         dist["custom_ops"] += int(s.get("custom", 0) > 0)
+        dist["generic_functions"] = dist.get("generic_functions", 0) + int(s.get("callg", 0) > 0)
+        dist["output_named_like_body_value"] = dist.get("output_named_like_body_value", 0) + int(
+            any("_branch__" in n or "_body__" in n for n, _ in r["spec"]["outputs"]))
         dist["max_depth"] = max(dist["max_depth"], s["depth"])
         dist["mixed_versions"] += int(len(s["vers"]) > 1)
         dist["drop_true"] += int(bool(r["spec"].get("drop")))
